@@ -58,6 +58,7 @@ type Options struct {
 }
 
 type Plan struct {
+	RaceHarness string // when set: counterexamples of frame-monitor assertions are confirmed by re-running this harness under go test -race
 	Property    string
 	Jobs        []Job
 	Level       string // evidence level
@@ -309,11 +310,25 @@ var pkgDirs = map[string]string{"gonnx": ".", "ops": "./ops", "opset13": "./ops/
 
 // RunNative executes the jobs against the real build of /repo (go test -overlay).
 func RunNative(w *symex.World, opt Options, jobs []NativeJob) (map[string]NativeResult, string, error) {
+	return runNative(w, opt, jobs, false)
+}
+
+// RunNativeRace runs the jobs under the race detector; the log tells whether a race was reported.
+func RunNativeRace(w *symex.World, opt Options, jobs []NativeJob) (bool, string) {
+	_, log, _ := runNative(w, opt, jobs, true)
+	return strings.Contains(log, "DATA RACE"), log
+}
+
+func runNative(w *symex.World, opt Options, jobs []NativeJob, race bool) (map[string]NativeResult, string, error) {
 	out := map[string]NativeResult{}
 	if len(jobs) == 0 {
 		return out, "", nil
 	}
-	work := filepath.Join(opt.VerifDir, ".work", fmt.Sprintf("%s-%d", opt.Property, os.Getpid()))
+	suffix := ""
+	if race {
+		suffix = "-race"
+	}
+	work := filepath.Join(opt.VerifDir, ".work", fmt.Sprintf("%s-%d%s", opt.Property, os.Getpid(), suffix))
 	if err := os.MkdirAll(work, 0o755); err != nil {
 		return nil, "", err
 	}
@@ -338,7 +353,11 @@ func RunNative(w *symex.World, opt Options, jobs []NativeJob) (map[string]Native
 		pkgs = append(pkgs, p)
 	}
 	sort.Strings(pkgs)
-	args := append([]string{"test", "-tags", "verif", "-vet=off", "-count=1", "-p", "1", "-timeout", "20m", "-overlay", ovPath, "-run", "^TestZZReplay$"}, pkgs...)
+	args := []string{"test", "-tags", "verif", "-vet=off", "-count=1", "-p", "1", "-timeout", "20m", "-overlay", ovPath, "-run", "^TestZZReplay$"}
+	if race {
+		args = append(args, "-race")
+	}
+	args = append(args, pkgs...)
 	cmd := exec.Command("go", args...)
 	cmd.Dir = opt.RepoDir
 	cmd.Env = append(os.Environ(), "GOFLAGS=-mod=mod", "GOPROXY=off", "GOSUMDB=off", "GOTOOLCHAIN=local", "ZZVERIF_IN="+inPath, "ZZVERIF_OUT="+outPath)
